@@ -1,7 +1,167 @@
 package c09
 
-import "verifharness/core"
+import (
+	"fmt"
+	"math/rand"
+	"strings"
 
-// runSession is provided by the session lab (see session_lab.go once the lab exists).
-var runSession = func(c *core.Ctx, r *core.Result) { r.Note("session part not built yet") }
+	"verifharness/core"
+	"verifharness/fixwire"
+	"verifharness/lab"
+)
+
+// Session part: framed garbage is fed to a session in every state; the session must neither
+// panic nor hang, and must still process the next well-formed message (liveness probe: a
+// TestRequest is echoed when the session stayed logged on, otherwise a fresh connect + Logon succeeds).
+
+type scase struct {
+	Begin  string   `json:"begin"`
+	State  string   `json:"state"`
+	Dict   bool     `json:"dictionary"`
+	Inputs []string `json:"inputs"`
+	Stack  string   `json:"stack,omitempty"`
+	Trace  []string `json:"trace_tail,omitempty"`
+}
+
+func sessionCase(c *core.Ctx, r *core.Result, j *core.Journal, idx int, rng *rand.Rand, verbose bool) {
+	begin := core.Pick(rng, "FIX.4.0", "FIX.4.2", "FIX.4.4", "FIXT.1.1")
+	state := core.Pick(rng, "logon-pending", "in-session", "in-session", "recovering", "pending", "logout-pending", "latent")
+	dict := rng.Intn(10) == 0
+	st := map[string]string{}
+	if dict {
+		for k, v := range lab.DictSettings(begin) {
+			st[k] = v
+		}
+	}
+	l, err := lab.New(lab.Config{Begin: begin, Initiator: rng.Intn(2) == 0, Settings: st, Tag: "c09"})
+	if err != nil {
+		panic("harness: " + err.Error())
+	}
+	defer l.Close()
+	p := l.NewPeer()
+	l.Start()
+	sc := scase{Begin: begin, State: state, Dict: dict}
+	reach := func() bool {
+		switch state {
+		case "latent":
+			return true
+		case "logon-pending":
+			return l.Connect() == nil
+		}
+		if !l.Establish(p, 30) {
+			return false
+		}
+		switch state {
+		case "recovering":
+			l.In("Heartbeat (too high)", p.Msg("0", p.NextOut+5, nil, nil))
+		case "pending":
+			l.Timeout(0)
+		case "logout-pending":
+			l.Stop()
+		}
+		return true
+	}
+	if !reach() {
+		return
+	}
+	n := 1 + rng.Intn(4)
+	for k := 0; k < n; k++ {
+		sn := l.Snap()
+		var seed []byte
+		switch rng.Intn(5) {
+		case 0:
+			seed = p.NewOrder(sn.NextTarget, nil, "g")
+		case 1:
+			seed = p.Logon(sn.NextTarget, 30)
+		case 2:
+			seed = p.Msg("2", sn.NextTarget, nil, fixwire.Fields{lab.F(7, core.Pick(rng, "1", "0", "-5", "", "99999999999")), lab.F(16, core.Pick(rng, "0", "", "-1", "5"))})
+		case 3:
+			seed = p.Msg("4", sn.NextTarget, nil, fixwire.Fields{lab.F(123, core.Pick(rng, "Y", "N", "", "X")), lab.F(36, core.Pick(rng, "", "0", "-3", "x", "99999999999999999999"))})
+		default:
+			seed = p.Msg(core.Pick(rng, "0", "1", "3", "5", "j", "8", ""), sn.NextTarget, nil, nil)
+		}
+		raw := seed
+		for m := 1 + rng.Intn(2); m > 0; m-- {
+			raw = mutate(rng, raw)
+		}
+		sc.Inputs = append(sc.Inputs, fixwire.Pipe(raw))
+		r.Eval(1)
+		var pi *core.PanicInfo
+		j.Do("session "+state, raw, func() {
+			core.HangWatch(c, r, "C09/hang/session", "session.Incoming", sc, hangLimit, func() {
+				pi = core.Safe(func() { l.In("garbage", raw) })
+			})
+		})
+		if pi != nil {
+			site := core.PanicSite(pi.Stack)
+			sc.Stack = trim(pi.Stack)
+			r.Violate("C09/panic/session/"+site, fmt.Sprintf("panic: %s in a session (%s, state %s) fed %q", pi.Val, begin, state, fixwire.Pipe(raw)), sc)
+			return
+		}
+		r.Seen("session_states_fed", state+"→"+l.Snap().State)
+	}
+	// liveness probe
+	var pi *core.PanicInfo
+	alive := false
+	pi = core.Safe(func() {
+		sn := l.Snap()
+		if sn.LoggedOn && !sn.Resend {
+			l.In("TestRequest (probe)", p.Msg("1", sn.NextTarget, nil, fixwire.Fields{lab.F(112, "PROBE")}))
+			for _, fs := range l.OutThisStep {
+				if t, _ := fs.Get(35); t == "0" {
+					if id, _ := fs.Get(112); id == "PROBE" {
+						alive = true
+					}
+				}
+			}
+			if alive {
+				return
+			}
+			// the probe may have been refused for a reason the garbage created legitimately (e.g. the session is logging out)
+		}
+		if l.Snap().Connected {
+			l.Disconnect()
+		}
+		if l.Snap().Stopped {
+			alive = true // a stop request ends the session object's life; nothing to probe
+			return
+		}
+		if err := l.Connect(); err != nil {
+			return
+		}
+		p.NextOut = l.Snap().NextTarget
+		alive = l.Establish(p, 30)
+	})
+	if pi != nil {
+		sc.Stack = trim(pi.Stack)
+		r.Violate("C09/panic/session-probe/"+core.PanicSite(pi.Stack), "panic while probing the session after garbage: "+pi.Val, sc)
+		return
+	}
+	if !alive {
+		sc.Trace = l.Tail(30)
+		r.Violate("C09/session-dead-after-garbage/"+state, fmt.Sprintf("after garbage in state %s the session neither answers a TestRequest nor accepts a fresh connect + Logon; trace tail: %s", state, strings.Join(l.Tail(10), " ⏎ ")), sc)
+		return
+	}
+	r.Nontrivial(fmt.Sprintf("session|%s|%s|%d", begin, state, n))
+	if verbose {
+		for _, s := range l.Tail(100) {
+			fmt.Println(s)
+		}
+	}
+}
+
+func runSessionImpl(c *core.Ctx, r *core.Result) {
+	j := core.NewJournal(c, c.Workers+1)
+	core.Each(c, r, "session", c.N(5000, 1500000), func(i int, rng *rand.Rand) { sessionCase(c, r, j, i, rng, false) })
+}
+
+func init() {
+	runSession = runSessionImpl
+	replaySession = func(c *core.Ctx, r *core.Result, raw []byte) {
+		fmt.Println(string(raw))
+		runSessionImpl(c, r)
+	}
+}
+
+var runSession func(c *core.Ctx, r *core.Result)
 var replaySession func(c *core.Ctx, r *core.Result, raw []byte)
